@@ -409,13 +409,14 @@ def op_to_coq(ids, fx, op, before, after):
     if k == "startup":
         return "OStartup"
     if k == "pull":
+        order = cq_list([cq_N(ids.h(h)) for h in op.get("_ord", [])], "N")
         if op["_served"] is None:
-            return "(OPull %s None)" % cq_name(parse_name(op["name"]))
+            return "(OPull %s None %s)" % (cq_name(parse_name(op["name"])), order)
         man = op["_manifest"]
         for l in man["layers"] + [man["config"]]:
             ids.size.setdefault(ids.h(l["digest"][7:]), l["size"])
         m = "(MkManifest %s %s)" % (cq_layer(ids, man["config"]), cq_list([cq_layer(ids, l) for l in man["layers"]], "layer"))
-        return "(OPull %s (Some (MkServed %s %s)))" % (cq_name(parse_name(op["name"])), m, cq_list(["None" if b is None else "(Some %s)" % cq_N(ids.content(b)) for b in op["_served"]], "(option N)"))
+        return "(OPull %s (Some (MkServed %s %s)) %s)" % (cq_name(parse_name(op["name"])), m, cq_list(["None" if b is None else "(Some %s)" % cq_N(ids.content(b)) for b in op["_served"]], "(option N)"), order)
     if k == "create":
         n = parse_name(op["name"])
         res = find_manifest(after, canon_existing(before, n))
